@@ -323,8 +323,12 @@ class CSSImportRule(cssrule.CSSRule):
                 # inherit fetcher for @imports in styleSheet
                 importedSheet._href = fullhref
                 importedSheet._setFetcher(self.parentStyleSheet._fetcher)
+                # as for a sheet which is parsed directly, what is still open
+                # at the end of the text is closed there
                 importedSheet._setCssTextWithEncodingOverride(
-                    cssText, encodingOverride=encodingOverride, encoding=encoding
+                    cssutils.tokenize2.Tokenizer().tokenize(cssText, fullsheet=True),
+                    encodingOverride=encodingOverride,
+                    encoding=encoding,
                 )
 
             except (OSError, ValueError) as e:
